@@ -18,7 +18,7 @@ from concurrent.futures import ThreadPoolExecutor
 
 VERIF = os.path.dirname(os.path.dirname(os.path.abspath(__file__)))
 SEEDED = os.path.join(VERIF, "seeded")
-TRIAL = "/tmp/trial"
+TRIAL = os.environ.get("VERIF_TRIAL_DIR") or f"/tmp/trial/p{os.getpid()}"  # private per invocation: concurrent runs must not share copies
 PY = "/venv/bin/python"
 
 
@@ -112,6 +112,8 @@ def main(argv):
         with ThreadPoolExecutor(jobs) as ex:
             for rs in ex.map(slot_worker, range(jobs)):
                 results += rs
+    if not os.environ.get("VERIF_TRIAL_DIR"):
+        shutil.rmtree(TRIAL, ignore_errors=True)
     for r in sorted(results, key=lambda r: r["name"]):
         print(f"{r['name']:14s} {r['property']} rc={r.get('rc')} detected={r.get('detected')} "
               f"input={r.get('with_failing_input')} {r.get('wall_s','')}s {r.get('error','')}")
